@@ -156,12 +156,12 @@ def reset_process_state():
     for cls in classes:
         if cls not in _SNAPSHOT:
             _SNAPSHOT[cls] = (
-                {key: dict(val) for (key, val) in cls.__dict__.get('overload_fields', {}).items()},
+                {key: dict(val) for (key, val) in cls.__dict__.get('_overload_fields', {}).items()},
                 list(cls.__dict__.get('payload_guess', [])),
             )
             continue
         (over, guess) = _SNAPSHOT[cls]
-        cur = cls.__dict__.get('overload_fields')
+        cur = cls.__dict__.get('_overload_fields')
         if cur is not None:
             for (key, val) in over.items():
                 if key in cur:
